@@ -23,7 +23,7 @@ func propC15(c *Ctx, r *Report) {
 	r.rule("C15/burn-address", 2, "burn-address zeroing uses the address and history rows of its era")
 	nb := c.fn("node.Pegnetd.NullifyBurnAddress")
 	for _, h := range []uint32{e.a.get("V20DevRewardsHeightActivation"), e.a.get("V202EnhanceActivation")} {
-		sc := &Scenario{Params: map[string]AVal{"height": hconst(h)}, MaxDepth: 1}
+		sc := &Scenario{Params: map[string]AVal{"type:uint32": hconst(h)}, MaxDepth: 1}
 		t := newSCCP(c, sc).analyse(nb, nil)
 		r.Scen++
 		addr := map[string]bool{}
@@ -60,7 +60,7 @@ func propC15(c *Ctx, r *Report) {
 		var total uint64
 		bad := ""
 		for i, p := range pcts {
-			sc := &Scenario{Params: map[string]AVal{"height": hconst(era.h)}, Paths: map[string]AVal{"node.DevReward.DevRewardPct": {K: AConst, C: constant.MakeFloat64(p)}}, MaxDepth: 1}
+			sc := &Scenario{Params: map[string]AVal{"type:uint32": hconst(era.h)}, Paths: map[string]AVal{"node.DevReward.DevRewardPct": {K: AConst, C: constant.MakeFloat64(p)}}, MaxDepth: 1}
 			t := newSCCP(c, sc).analyse(dp, nil)
 			r.Scen++
 			calls := t.CallsTo("AddToBalance")
@@ -93,7 +93,7 @@ func propC15(c *Ctx, r *Report) {
 		r.check(bad == "", "C15/dev-rewards", "developer rewards "+era.name, c.pos(dp.Pos()), fmt.Sprintf("%d credits, total %d PEG-units, each = pct x total, history row = credit", len(pcts), total), bad)
 	}
 	// exactly one AddToBalance per developer iteration: structural (one call site inside the range loop)
-	nAdd := len(findCalls(dp, "pegnet.(*Pegnet).AddToBalance"))
+	nAdd := len(findCalls(dp, "pegnet.Pegnet.AddToBalance"))
 	r.check(nAdd == 1, "C15/dev-rewards", "one credit call site in DevelopersPayouts", c.pos(dp.Pos()), "", fmt.Sprintf("%d AddToBalance call sites", nAdd))
 
 	// configuration variants: activations aligned with the 144-block cadence (the property quantifies over
@@ -126,7 +126,7 @@ func propC15(c *Ctx, r *Report) {
 			var total uint64
 			okAll := true
 			for _, p := range pcts {
-				sc := &Scenario{Params: map[string]AVal{"height": hconst(h)}, Paths: map[string]AVal{"node.DevReward.DevRewardPct": {K: AConst, C: constant.MakeFloat64(p)}}, MaxDepth: 1, Globals: ev.globals}
+				sc := &Scenario{Params: map[string]AVal{"type:uint32": hconst(h)}, Paths: map[string]AVal{"node.DevReward.DevRewardPct": {K: AConst, C: constant.MakeFloat64(p)}}, MaxDepth: 1, Globals: ev.globals}
 				t := newSCCP(c, sc).analyse(dp, nil)
 				r.Scen++
 				calls := t.CallsTo("AddToBalance")
@@ -155,15 +155,17 @@ func propC15(c *Ctx, r *Report) {
 	}
 
 	r.rule("C15/no-carried-state", 1, "scheduled issuance depends on the height and the database only")
+	// the statements of the scheduled adjustments can succeed: no parameter that database/sql refuses
+	ruleU64Params(c, r, "C15/statements-can-succeed", reachOf(c, "node.Pegnetd.MintTokensForBalance", "node.Pegnetd.NullifyMintedTokens", "node.Pegnetd.NullifyBurnAddress", "node.Pegnetd.DevelopersPayouts"), 3)
 	ruleNoCarriedReads(c, newSharedAnalysis(c), r, "C15/no-carried-state", reachOf(c, "node.Pegnetd.MintTokensForBalance", "node.Pegnetd.NullifyMintedTokens", "node.Pegnetd.NullifyBurnAddress", "node.Pegnetd.DevelopersPayouts"), carriedAllowedSync, "scheduled issuance")
 
 	// who may call the one-time mutators
 	r.rule("C15/one-time-callers", 3, "one-time mutators are called from their scheduled site only")
 	for _, spec := range []struct{ fn, caller string; n int }{
-		{"node.Pegnetd.MintTokensForBalance", "node.(*Pegnetd).SyncBlock", 1},
-		{"node.Pegnetd.NullifyMintedTokens", "node.(*Pegnetd).SyncBlock", 1},
-		{"node.Pegnetd.NullifyBurnAddress", "node.(*Pegnetd).DBlockSync", 2},
-		{"node.Pegnetd.DevelopersPayouts", "node.(*Pegnetd).SyncBlock", 1},
+		{"node.Pegnetd.MintTokensForBalance", "node.Pegnetd.SyncBlock", 1},
+		{"node.Pegnetd.NullifyMintedTokens", "node.Pegnetd.SyncBlock", 1},
+		{"node.Pegnetd.NullifyBurnAddress", "node.Pegnetd.DBlockSync", 2},
+		{"node.Pegnetd.DevelopersPayouts", "node.Pegnetd.SyncBlock", 1},
 	} {
 		f := c.fn(spec.fn)
 		sites := c.callSitesOf(f)
@@ -258,7 +260,7 @@ func mintTableCheck(c *Ctx, r *Report) {
 	// the mint credits Amount*1e8 of the same entry's ticker
 	mt := c.fn("node.Pegnetd.MintTokensForBalance")
 	okk := false
-	for _, ci := range findCalls(mt, "pegnet.(*Pegnet).AddToBalance") {
+	for _, ci := range findCalls(mt, "pegnet.Pegnet.AddToBalance") {
 		args := ci.Common().Args
 		bo, ok := args[4].(*ssa.BinOp)
 		if ok && valuePath(bo.X) == "tokenSupply.Amount" && valuePath(args[3]) == "tokenSupply.Ticker" {
@@ -476,7 +478,7 @@ func execReachesSameTx(st *fnState, a, b ssa.Instruction) bool {
 	allInstrs(st.fn, func(ins ssa.Instruction) {
 		if ci, ok := ins.(ssa.CallInstruction); ok {
 			n := calleeName(ci.Common())
-			if n == "database/sql.(*DB).BeginTx" || n == "database/sql.(*DB).Begin" {
+			if n == "database/sql.DB.BeginTx" || n == "database/sql.DB.Begin" {
 				begin[ins.Block()] = true
 			}
 		}
